@@ -108,7 +108,75 @@ def addr_stages(prop, tier, seed):
 ADDR_ASSUME = ["net/url, terraform-registry-address and go-versions are environment (their results are only constrained by the laws)",
                "TLC string concatenation = Go string concatenation", "TLC"]
 
+BUILDER_JUDGE = {"module": "Judge_Builder", "cfg": "Judge_Builder.cfg"}
+
+
+def builder_stage(name, prop, seed, overrides, **kw):
+    ov = {"Emit": "TRUE"}
+    ov.update(overrides)
+    d = dict(name=name, module="MC_Builder", cfg="MC_Builder.cfg", family="builder", overrides=ov,
+             vh_args=["-props", prop, "-gamma", "%d,%d,%d" % (seed * 6, seed * 6 + 1, seed * 6 + 2)], judge=BUILDER_JUDGE,
+             exhaustive=True, timeout=3000)
+    d.update(kw)
+    return d
+
+
+def builder_stages(prop, tier, seed):
+    q = tier == "quick"
+    base = builder_stage("graph", prop, seed, {})
+    faults = builder_stage("faults", prop, seed, {"Faults": '{"vers", "src", "fetch"}', "MaxFaults": "1" if q else "2",
+                                                  "DiagKinds": '{"none", "warn", "err"}', "MaxEdges": "1", "MaxAdds": "2"})
+    vers = builder_stage("versions", prop, seed, {"Vers": "{1, 2, 3}", "AllowedSets": "<- MCAllowed", "DepFlags": "{TRUE, FALSE}",
+                                                  "Adds": "<- MCAddsV", "MaxEdges": "0", "MaxAdds": "3", "Pkgs": '{"P1"}',
+                                                  "Subs": "<- MCSubs1"})
+    coal = builder_stage("coalesce", prop, seed, {"Contents": "{1, 2}", "MetaFlags": "{TRUE, FALSE}", "MaxEdges": "1", "Adds": "<- MCAddsR"})
+    if prop == "C14":
+        return [base] if q else [base, builder_stage("graph3", prop, seed, {"MaxEdges": "3", "Finders": '{"F1", "F2"}', "Adds": "<- MCAdds3", "Pkgs": '{"P1", "P2", "P3"}'}, sim={"num": 40000, "depth": 60}, workers=1)]
+    if prop == "C08":
+        return [base, coal] if q else [base, coal, vers]
+    if prop == "C17":
+        return [vers]
+    if prop == "C12":
+        return [faults]
+    if prop == "C13":
+        return [coal, base] if not q else [coal]
+    raise KeyError(prop)
+
+
+BUILDER_ASSUME = ["scripted environment (fetcher, registry client, comparable finder values) built from the case's world",
+                  "the finder learns which package it analyses from the preceding Download Start/Already tracer event (all under b.mu)",
+                  "dirhash / encoding/json are environment (only laws over their results are stated)", "TLC"]
+
 PROPS = {
+    "C08": dict(stages=builder_stages, key="c08", wkey="w08", kfkey="kf08",
+                rule="cases = terminal behaviours of spec/Builder.tla (lazy world: what finders report incl. relative paths, what the "
+                     "registry lists and returns, what the fetcher delivers) x Add sequences with repeats; replayed with a scripted "
+                     "environment; every source of RefClosure is looked up in the real bundle (defined, inside the root, exists iff the "
+                     "fetched tree has the sub-path, holds the fetched content; registry lookups equal the joined remote address; "
+                     "reverse lookup inverts; metadata unchanged); non-trivial = >= 3 tracer events",
+                assume=BUILDER_ASSUME),
+    "C12": dict(stages=builder_stages, key="c12", wkey="w12", kfkey="kf12",
+                rule="cases = behaviours with every single (thorough: pair of) failing environment call (versions, source address, "
+                     "fetch) and finder diagnostics (warning / error); the failure must be reported, the builder must refuse all "
+                     "further use, no Bundle may come out, the directory must not open as a bundle at any callback boundary, "
+                     "finder diagnostics must reach caller and tracer intact with rewritten file names",
+                assume=BUILDER_ASSUME),
+    "C13": dict(stages=builder_stages, key="c13", wkey="w13", kfkey="kf13",
+                rule="cases = behaviours over worlds with several packages / content ids; each is rebuilt with identical inputs and "
+                     "with the Add calls in canonical order: manifest bytes, checksum must be equal, same content <=> same directory, "
+                     "and the environment must not be asked anything new",
+                assume=BUILDER_ASSUME),
+    "C14": dict(stages=builder_stages, key="c14", wkey="w14", kfkey="kf14",
+                rule="cases = all terminal behaviours of the fault-free model within the bound (chains, diamonds, cycles, "
+                     "self-references, registry hops, repeats in the Add sequence); the real tracer event sequence and environment "
+                     "call log must equal the predicted ones; counters per package / registry package / version / (source, finder) "
+                     "are exactly 1 for required work and never exceed 1; events bracketed; Already only after Success",
+                assume=BUILDER_ASSUME),
+    "C17": dict(stages=builder_stages, key="c17", wkey="w17", kfkey="kf17",
+                rule="cases = offered version lists (orderings of subsets of 3 versions, deprecation flags) x allowed sets x up to "
+                     "three requests against the same registry package (cache path) x version tables with pre-releases (gamma); "
+                     "selected = Max(offered /\\ allowed), none => error, deprecation = the registry's for that version",
+                assume=BUILDER_ASSUME),
     "C06": dict(stages=addr_stages, key="c06", wkey="w06", kfkey="kf06",
                 rule="cases = every address string of the field grammar of spec/Addr.tla (type x scheme x userinfo x host x path x "
                      "query x fragment x sub-path, shorthands, registry and versioned registry addresses) and every value derived "
@@ -269,12 +337,12 @@ def check(vc, prop, tier, seed, t0):
             n = flag_counts.get(prop + "|" + k, len(fl))
             ex = fl[0]
             print("KNOWN-FINDING: property=%s %s: %s (%d cases this run; e.g. witness %s)" % (
-                prop, k, known[(prop, k)]["what"], n, ",".join(ex.get("witness") or [])))
+                prop, k, known[(prop, k)]["what"], n, json.dumps(ex.get("witness"))[:300]))
         rc = 0
         seen = set()
         for f in viol:
             rc = 1
-            sig = (tuple(f.get("witness") or []), f.get("kf"))
+            sig = (json.dumps(f.get("witness"), sort_keys=True), f.get("kf"))
             if sig in seen or len(seen) >= 10:
                 continue
             seen.add(sig)
